@@ -239,3 +239,123 @@ func guardedAtAllCalls(p *an.Prog, fn *ssa.Function, pred func(an.Rel) bool, d i
 	}
 	return n > 0
 }
+
+// T6: the compile order is computed before the binding tables exist.  (*Pipeline).compile sorts
+// the calls topologically (so that the type of a mapped call's output is known when a later call
+// refers to it) and only afterwards compiles the call bindings, which is what fills
+// BindStms.Table.  Code that runs as part of the sort must therefore find bindings through
+// BindStms.List; a look-up in Table sees an empty map, the dependency edge is dropped silently
+// and a reference to a later-declared mapped call is typed with the parser's placeholder
+// (ill-typed `disabled = LATER.out` is accepted).
+//
+// The premise is re-established on every run: in every function that calls the sort and also
+// (transitively) a function storing BindStms.Table, the sort comes first on all paths.  If the
+// premise does not hold (the phases were reordered) the rule says nothing.
+func ruleT6(c *an.Ctx) {
+	p := c.P
+	table := p.Field(pkgSyntax, "BindStms", "Table")
+	sortFn := p.Func(pkgSyntax, "(*Pipeline).topoSort")
+	if table == nil || sortFn == nil {
+		c.Info("T6", "anchor", token.NoPos, "BindStms.Table or (*Pipeline).topoSort not found: not decided")
+		return
+	}
+	fns := p.FuncsOf(pkgSyntax)
+	// functions that (transitively, static calls inside the package) store BindStms.Table
+	stores := map[*ssa.Function]bool{}
+	for _, fn := range fns {
+		for _, g := range an.WithAnon(fn) {
+			if len(an.StoresToField(g, table)) > 0 {
+				stores[fn] = true
+			}
+		}
+	}
+	reach := func(root *ssa.Function, depth int) map[*ssa.Function]bool {
+		seen := map[*ssa.Function]bool{}
+		var rec func(f *ssa.Function, d int)
+		rec = func(f *ssa.Function, d int) {
+			if f == nil || seen[f] || f.Blocks == nil || f.Pkg != root.Pkg || d > depth {
+				return
+			}
+			seen[f] = true
+			for _, g := range an.WithAnon(f) {
+				seen[g] = true
+				an.Instrs(g, func(in ssa.Instruction) {
+					if cl := an.AsCallAny(in); cl != nil {
+						rec(cl.Common().StaticCallee(), d+1)
+					}
+				})
+			}
+		}
+		rec(root, 0)
+		return seen
+	}
+	mayStore := func(f *ssa.Function) bool {
+		for g := range reach(f, 6) {
+			if stores[an.Outermost(g)] {
+				return true
+			}
+		}
+		return false
+	}
+	// premise
+	premise, drivers := true, 0
+	for caller, sites := range p.Callers(sortFn) {
+		if caller.Pkg != sortFn.Pkg {
+			continue
+		}
+		var storing []ssa.Instruction
+		an.Instrs(caller, func(in ssa.Instruction) {
+			if cl := an.AsCallAny(in); cl != nil {
+				if f := cl.Common().StaticCallee(); f != nil && f != sortFn && f.Pkg == sortFn.Pkg && mayStore(f) {
+					storing = append(storing, in)
+				}
+			}
+		})
+		if len(storing) == 0 {
+			continue
+		}
+		drivers++
+		for _, site := range sites {
+			si, _ := site.(ssa.Instruction)
+			// no path from entry to the sort passes a storing call
+			before := false
+			for _, st := range storing {
+				st := st
+				if an.Reachable(caller, st, func(in ssa.Instruction) bool { return in == si }) {
+					before = true
+				}
+			}
+			if before {
+				premise = false
+			}
+		}
+	}
+	if !premise || drivers == 0 {
+		c.Info("T6", "premise(sort-before-binding-tables)", token.NoPos, "the sort no longer precedes the compilation of the bindings in its caller: rule not applicable")
+		return
+	}
+	n := 0
+	for g := range reach(sortFn, 6) {
+		for _, acc := range an.FieldAccesses(g, table) {
+			if fa, ok := acc.(*ssa.FieldAddr); ok {
+				read := false
+				for _, r := range an.Referrers(fa) {
+					if st, isStore := r.(*ssa.Store); isStore && st.Addr == ssa.Value(fa) {
+						continue
+					}
+					read = true
+				}
+				if !read {
+					continue
+				}
+			}
+			n++
+			c.Fail("T6", "binding-table-read-before-built@"+an.FnName(g), acc.Pos(),
+				"BindStms.Table is read by code that runs as part of the topological sort of a pipeline's calls, which (*Pipeline).compile performs before any call's bindings are compiled: the table is still empty, the look-up finds nothing and the dependency it stands for is dropped (bindings must be found through BindStms.List here)")
+		}
+	}
+	if n == 0 {
+		c.Pass("T6", "binding-tables-not-read-during-sort@(*Pipeline).topoSort", sortFn.Pos(),
+			fmt.Sprintf("no function reachable from the sort reads BindStms.Table; premise holds in %d caller(s): the sort precedes every call that builds the tables", drivers))
+	}
+}
